@@ -1,2 +1,5 @@
 pub mod util;
 pub mod abi_gen;
+pub mod scripted;
+pub mod wirecodec;
+pub mod xport;
